@@ -83,7 +83,7 @@ def _check_program(ctx, sf, spec, fock=True, cutoff=9):
     sel = None
     if ctx.oracle_cases % 3 == 1 and len(ref.active) >= 2:
         k = ctx.rng.randint(2, len(ref.active))
-        sel = ctx.rng.sample(ref.active, k)
+        sel = ctx.rng.sample(ref.active, k)          # subsystem indices (documented: "modes=[3,0] ... subsystem 3, subsystem 0")
         refm = sim.restrict_moments(ref.alpha_N_M(), sel)
         rp["modes"] = sel
         ctx.tally("state-modes:%s" % ("ascending" if sel == sorted(sel) else "unsorted"))
